@@ -2,7 +2,7 @@
    up to a bound) of the grammar produced by the front end, to be compared with
    the language of the implementation's optimised grammar. *)
 From Coq Require Import String.
-From LLG Require Import Base Sx Regex Lexer Earley RunEngine.
+From LLG Require Import Base Sx Regex Lexer Earley RunEngine Optimize.
 Open Scope string_scope.
 Open Scope N_scope.
 
@@ -52,7 +52,27 @@ Fixpoint ins_sorted (w : list N) (l : list (list N)) : list (list N) :=
   | x :: l' => if seq_leb w x then w :: l else x :: ins_sorted w l'
   end.
 
+(* nonterminal i -> symbol i; terminal k -> symbol nnt + k *)
+Definition osym_of (nnt : nat) (s : gsym) : nat :=
+  match s with NT n => N.to_nat n | TM k => (nnt + N.to_nat k)%nat end.
+Definition sx_of_osym (nnt : nat) (i : nat) : sx :=
+  if Nat.ltb i nnt then tagged "n" [sn (N.of_nat i)] else tagged "t" [sn (N.of_nat (i - nnt))].
+
+Definition run_optimize (a : list sx) : sx :=
+  let rules := map (fun alts => map (fun alt => map gsym_of_sx (as_list alt)) (as_list alts))
+                   (field "rules" a) in
+  let nnt := length rules in
+  let start := N.to_nat (as_n (nth_sx a 1)) in
+  let nterm := N.to_nat (as_n (nth_sx a 2)) in
+  let g : ogrammar :=
+    (map (fun '(i, alts) => mk_osym (map (map (osym_of nnt)) alts) (Nat.eqb i start))
+         (combine (seq 0 nnt) rules)
+     ++ repeat (mk_osym [] false) nterm)%list in
+  let g' := optimize g in
+  tagged "ok" (map (fun s => SL (map (fun rhs => SL (map (sx_of_osym nnt) rhs)) (o_rules s))) (firstn nnt g')).
+
 Definition run_case15 (x : sx) : sx :=
+  if bytes_eqb (head_sym x) (sym "optimize") then run_optimize (tail_items x) else
   let a := tail_items x in
   let rules := map (fun alts => map (fun alt => map gsym_of_sx (as_list alt)) (as_list alts))
                    (field "rules" a) in
